@@ -81,14 +81,15 @@ variable (nested : Nested) (sem : Sem) (gi : Nat) (span : Span) (dopen : Bool) (
 
 /-- (4) `b1(x) -> x`, if/else `gate(x) -> b1 | END`, either value of `default_open`. If the
 condition holds on `x₀ … x_{n-1}` (`x_j = F^[j] x₀ = xs F x0 j`), fails on `x_n`, and every executed
-iteration changes the loop variable — in the sense `update_value` observes, Python's `!=`
-(`Val.pyEq … = false`): a body that turns `1` into `True` makes no progress — then with
+iteration changes the loop variable — in the sense `update_value` observes, another type or
+Python's `!=` (`Val.changed … = true`): a body that turns `1` into `True` makes progress, one that turns
+`[1]` into `[True]` does not — then with
 `2n+1 ≤ max_iterations` the loop ends quiescent after
 exactly `2n+1` supersteps with `x = F^[n] x₀`, having called `b1` exactly `n` times and `gate` exactly
 `n+1` times. -/
 theorem loop_L1_k1 (hs : SemL1 F c sem dopen) (n maxIter : Nat) (log : List Log)
     (hc : ∀ j, j < n → c (Nat.repeat F j x0) = true) (hn : c (Nat.repeat F n x0) = false)
-    (hprog : ∀ j, j < n → Val.pyEq (Nat.repeat F j x0) (F (Nat.repeat F j x0)) = false)
+    (hprog : ∀ j, j < n → Val.changed (Nat.repeat F j x0) (F (Nat.repeat F j x0)) = true)
     (hfuel : 2 * n + 1 ≤ maxIter) :
     ∃ s' lg,
       runLoop (fun k s rs => stepSync nested sem gi (L1 dopen es sp) span k s rs s []) (L1 dopen es sp) .none
@@ -106,7 +107,7 @@ theorem loop_L1_k1 (hs : SemL1 F c sem dopen) (n maxIter : Nat) (log : List Log)
 exactly `max_iterations` supersteps, carrying the state computed so far -/
 theorem loop_L1_k1_limit (hs : SemL1 F c sem dopen) (n maxIter : Nat) (log : List Log)
     (hc : ∀ j, j < n → c (Nat.repeat F j x0) = true) (hn : c (Nat.repeat F n x0) = false)
-    (hprog : ∀ j, j < n → Val.pyEq (Nat.repeat F j x0) (F (Nat.repeat F j x0)) = false)
+    (hprog : ∀ j, j < n → Val.changed (Nat.repeat F j x0) (F (Nat.repeat F j x0)) = true)
     (hfuel : maxIter < 2 * n + 1) :
     ∃ lg,
       runLoop (fun k s rs => stepSync nested sem gi (L1 dopen es sp) span k s rs s []) (L1 dopen es sp) .none
@@ -131,7 +132,7 @@ emit sentinel, which `filter_outputs` hides), `b1` called `n` times and `gate` `
 theorem run_L1_k1 (hs : SemL1 F c sem dopen) (n : Nat) (cfg : RunCfg) (parent : Option Span)
     (hsel : cfg.select = .unset)
     (hc : ∀ j, j < n → c (Nat.repeat F j x0) = true) (hn : c (Nat.repeat F n x0) = false)
-    (hprog : ∀ j, j < n → Val.pyEq (Nat.repeat F j x0) (F (Nat.repeat F j x0)) = false)
+    (hprog : ∀ j, j < n → Val.changed (Nat.repeat F j x0) (F (Nat.repeat F j x0)) = true)
     (hfuel : 2 * n + 1 ≤ cfg.maxIter) (hns : Nat.repeat F n x0 ≠ .sentinel) :
     let r := runGraph nested sem .sync gi (L1 dopen es sp) [("x", x0)] cfg span parent
     r.status = .completed ∧ r.values = [("x", Nat.repeat F n x0)] ∧ r.error = .none ∧ r.raised = false ∧
@@ -156,7 +157,7 @@ after `max_iterations / 2` iterations -/
 theorem run_L1_k1_limit (hs : SemL1 F c sem dopen) (n : Nat) (cfg : RunCfg) (parent : Option Span)
     (hsel : cfg.select = .unset)
     (hc : ∀ j, j < n → c (Nat.repeat F j x0) = true) (hn : c (Nat.repeat F n x0) = false)
-    (hprog : ∀ j, j < n → Val.pyEq (Nat.repeat F j x0) (F (Nat.repeat F j x0)) = false)
+    (hprog : ∀ j, j < n → Val.changed (Nat.repeat F j x0) (F (Nat.repeat F j x0)) = true)
     (hfuel : cfg.maxIter < 2 * n + 1) (hns : Nat.repeat F (cfg.maxIter / 2) x0 ≠ .sentinel) :
     let r := runGraph nested sem .sync gi (L1 dopen es sp) [("x", x0)] cfg span parent
     r.status = .failed ∧ r.error = some (.infiniteLoop cfg.maxIter) ∧
@@ -187,7 +188,7 @@ variable (nested : Nested) (sem : Sem) (gi : Nat) (span : Span) (dopen : Bool) (
 /-- (5a) route-gate variant: `gate` is a `@route` node returning `"b1"` or `END` itself -/
 theorem loop_L1_k1_route (hs : L1R.SemL1 F c sem dopen) (n maxIter : Nat) (log : List Log)
     (hc : ∀ j, j < n → c (Nat.repeat F j x0) = true) (hn : c (Nat.repeat F n x0) = false)
-    (hprog : ∀ j, j < n → Val.pyEq (Nat.repeat F j x0) (F (Nat.repeat F j x0)) = false) :
+    (hprog : ∀ j, j < n → Val.changed (Nat.repeat F j x0) (F (Nat.repeat F j x0)) = true) :
     (2 * n + 1 ≤ maxIter → ∃ s' lg,
       runLoop (fun k s rs => stepSync nested sem gi (L1R.L1 dopen es sp) span k s rs s []) (L1R.L1 dopen es sp) .none
           maxIter maxIter 0 (initState [("x", x0)]) log = .done s' (log ++ lg) (2 * n + 1) ∧
@@ -213,7 +214,7 @@ theorem loop_L1_k1_route (hs : L1R.SemL1 F c sem dopen) (n maxIter : Nat) (log :
 `2n+2` supersteps, `done` runs exactly once, on the final loop variable -/
 theorem loop_L1_k1_exit (Dv : Val → Val) (hs : L1X.SemL1 F c Dv sem dopen) (n maxIter : Nat) (log : List Log)
     (hc : ∀ j, j < n → c (Nat.repeat F j x0) = true) (hn : c (Nat.repeat F n x0) = false)
-    (hprog : ∀ j, j < n → Val.pyEq (Nat.repeat F j x0) (F (Nat.repeat F j x0)) = false) :
+    (hprog : ∀ j, j < n → Val.changed (Nat.repeat F j x0) (F (Nat.repeat F j x0)) = true) :
     (2 * n + 2 ≤ maxIter → ∃ s' lg,
       runLoop (fun k s rs => stepSync nested sem gi (L1X.L1 dopen es sp) span k s rs s []) (L1X.L1 dopen es sp) .none
           maxIter maxIter 0 (initState [("x", x0)]) log = .done s' (log ++ lg) (2 * n + 2) ∧
@@ -243,7 +244,7 @@ condition fails; exactly `2n` supersteps, `b1` and `gate` each run `n` times. Ea
 `update_value` treating the re-emitted sentinel as a fresh value. -/
 theorem loop_L2_k1 (hs : L2.SemL2 F c sem true) (n' maxIter : Nat) (log : List Log)
     (hc : ∀ j, j < n' → c (Nat.repeat F (j + 1) x0) = true) (hn : c (Nat.repeat F (n' + 1) x0) = false)
-    (hprog : ∀ j, j < n' + 1 → Val.pyEq (Nat.repeat F j x0) (F (Nat.repeat F j x0)) = false) :
+    (hprog : ∀ j, j < n' + 1 → Val.changed (Nat.repeat F j x0) (F (Nat.repeat F j x0)) = true) :
     (2 * (n' + 1) ≤ maxIter → ∃ s' lg,
       runLoop (fun k s rs => stepSync nested sem gi (L2.L2 true es sp) span k s rs s []) (L2.L2 true es sp) .none
           maxIter maxIter 0 (initState [("x", x0)]) log = .done s' (log ++ lg) (2 * (n' + 1)) ∧
@@ -254,7 +255,7 @@ theorem loop_L2_k1 (hs : L2.SemL2 F c sem true) (n' maxIter : Nat) (log : List L
           maxIter maxIter 0 (initState [("x", x0)]) log = .fail (.infiniteLoop maxIter) s' (log ++ lg) maxIter ∧
       AL.get? s'.values "x" = some (Nat.repeat F ((maxIter + 1) / 2) x0)) := by
   simp only [← xs_eq_repeat] at hc hn hprog ⊢
-  have hp0 : Val.pyEq (xs F x0 0) (xs F x0 1) = false := by simpa [xs] using hprog 0 (by omega)
+  have hp0 : Val.changed (xs F x0 0) (xs F x0 1) = true := by simpa [xs] using hprog 0 (by omega)
   rw [L2.init_eq]
   cases maxIter with
   | zero =>
